@@ -94,7 +94,7 @@ def run(ctx):
 
     # ---------------------------------------------------------------- R2
     r = ctx.rule("C12-R2", "POLARITY",
-                 "registration appends, the sort is descending in priority only (stable), iteration is forward", reference=5)
+                 "registration appends, the sort is descending in priority only (stable), iteration is forward", reference=6)
     add = methods.get("add_listener")
     sort = methods.get("_sort_listeners")
     disp = methods.get("_do_dispatch")
@@ -207,7 +207,7 @@ def run(ctx):
 
     # ---------------------------------------------------------------- R5
     r = ctx.rule("C12-R5", "KEY", "store, cache and dispatch are subscripted with the method's own event-name "
-                 "parameter (or the loop variable when iterating all events)", reference=12)
+                 "parameter (or the loop variable when iterating all events)", reference=18)
     for name, m in sorted(methods.items()):
         params = set(q.param_names(m))
         loopvars = q.loop_vars_over(m, lambda it: q.self_attr_root(it) in (STORE, CACHE))
